@@ -1399,6 +1399,17 @@ impl Connection {
     /// configuration in the [`TransportConfig`].
     pub fn path_changed(&mut self, now: Instant) {
         self.path.reset(now, &self.config);
+        self.drop_oversized_datagrams();
+    }
+
+    /// Discard queued datagrams that no longer fit after the path MTU may have been reduced
+    fn drop_oversized_datagrams(&mut self) {
+        if let Some(max_datagram_size) = self.datagrams().max_size() {
+            if self.datagrams.drop_oversized(max_datagram_size) && self.datagrams.send_blocked {
+                self.datagrams.send_blocked = false;
+                self.events.push_back(Event::DatagramsUnblocked);
+            }
+        }
     }
 
     /// Modify the number of remotely initiated streams that may be concurrently open
@@ -3137,6 +3148,8 @@ impl Connection {
         let prev_pto = self.pto(SpaceId::Data);
 
         let mut prev = mem::replace(&mut self.path, new_path);
+        // The new path may have started over from the initial MTU
+        self.drop_oversized_datagrams();
         // Don't clobber the original path if the previous one hasn't been validated yet
         if prev.challenge.is_none() {
             prev.challenge = Some(self.rng.random());
